@@ -421,6 +421,16 @@ func listRuns(c *chain, ctx sdk.Context, r *rng) []*listRun {
 	wf := []flt{{"", ""}, {c.addrOf(1).String(), ""}}
 	if len(wcs) > 0 {
 		wf = append(wf, flt{wcs[0].Owner, ""}, flt{"", wcs[0].Moniker}, flt{wcs[len(wcs)-1].Owner, wcs[len(wcs)-1].Moniker}, flt{"", "nosuchmoniker"})
+		lo, hi := wcs[0].Moniker, wcs[0].Moniker
+		for _, w := range wcs {
+			if len(w.Moniker) < len(lo) {
+				lo = w.Moniker
+			}
+			if len(w.Moniker) >= len(hi) {
+				hi = w.Moniker
+			}
+		}
+		wf = append(wf, flt{"", lo}, flt{"", hi})
 	}
 	for _, f := range wf {
 		f := f
@@ -446,6 +456,16 @@ func listRuns(c *chain, ctx sdk.Context, r *rng) []*listRun {
 	bf := []flt{{"", ""}, {c.addrOf(1).String(), ""}}
 	if len(bcs) > 0 {
 		bf = append(bf, flt{bcs[0].Owner, ""}, flt{"", bcs[0].Moniker}, flt{"", "nosuchmoniker"})
+		lo, hi := bcs[0].Moniker, bcs[0].Moniker
+		for _, b := range bcs {
+			if len(b.Moniker) < len(lo) {
+				lo = b.Moniker
+			}
+			if len(b.Moniker) >= len(hi) {
+				hi = b.Moniker
+			}
+		}
+		bf = append(bf, flt{"", lo}, flt{"", hi})
 	}
 	for _, f := range bf {
 		f := f
@@ -612,6 +632,13 @@ func addSyntheticStreams(c *chain, r *rng) {
 		if c.app.StreamKeeper.SetStream(ctx, rc, sn, st) == nil {
 			n++
 		}
+	}
+	// registrations with monikers of the extreme legal lengths (64 bytes is the maximum ValidateBasic accepts, 1 the
+	// minimum), two of them sharing the 64-byte moniker: the moniker filter must find them like any other
+	long := strings.Repeat("m", 63) + string(rune('a'+r.intn(3)))
+	for i, mon := range []string{long, long, "q"} {
+		c.app.WrkchainKeeper.RegisterNewWrkChain(ctx, mon, fmt.Sprintf("syn%d", i), "g", "t", c.addrOf(i%2))
+		c.app.BeaconKeeper.RegisterNewBeacon(ctx, bcntypes.Beacon{Moniker: mon, Name: fmt.Sprintf("syn%d", i), Owner: c.addrOf(i % 2).String()})
 	}
 	c.end(nil)
 	c.commit()
